@@ -337,8 +337,32 @@ def r9_4(prog, rep, rule="R9.4"):
             visited = False
             for n in ast.walk(vm.node):
                 if isinstance(n, (ast.ListComp, ast.GeneratorExp)):
-                    src = unparse(n.generators[0].iter)
-                    if src in (f"{p}.{fld}", f"{p}.{fld}.values()") and unparse(n.elt) == f"{unparse(n.generators[0].target)}.accept(self)":
+                    it_ = n.generators[0].iter
+                    if isinstance(it_, ast.Name):
+                        # a local bound once to the collection(s)
+                        ds_ = [x.value for x in walk_local(vm.node) if isinstance(x, ast.Assign) and len(x.targets) == 1 and unparse(x.targets[0]) == it_.id]
+                        if len(ds_) == 1:
+                            it_ = ds_[0]
+                    # the iterable may be a concatenation / chain of several child collections
+                    parts = [it_]
+                    if isinstance(it_, ast.Call) and (dotted(it_.func) or "").split(".")[-1] == "chain" and not it_.keywords:
+                        parts = list(it_.args)
+                    elif isinstance(it_, ast.BinOp) and isinstance(it_.op, ast.Add):
+                        parts = []
+                        stack_ = [it_]
+                        while stack_:
+                            y = stack_.pop()
+                            if isinstance(y, ast.BinOp) and isinstance(y.op, ast.Add):
+                                stack_ += [y.right, y.left]
+                            else:
+                                parts.append(y)
+                    srcs = set()
+                    for y in parts:
+                        if isinstance(y, ast.Call) and dotted(y.func) in ("list", "tuple") and len(y.args) == 1:
+                            y = y.args[0]
+                        srcs.add(unparse(y))
+                    if srcs & {f"{p}.{fld}", f"{p}.{fld}.values()"} and not n.generators[0].ifs and len(n.generators) == 1 \
+                            and unparse(n.elt) == f"{unparse(n.generators[0].target)}.accept(self)":
                         visited = True
             obl(rep, vm, vm.node, rule, bool(reads) and visited,
                 f"{target} visits every child in `{cls.name}.{fld}`", "child-bearing field derived from the inferred field types",
